@@ -214,6 +214,13 @@ def rewrite_fp(src, log):
         s = s.replace('(mut %s: %s' % (m.group(2), m.group(3)), '(%s: %s' % (m.group(2), m.group(3)), 1)
         s = re.sub(r'\{', '{\nlet mut %s = %s;' % (m.group(2), m.group(2)), s, count=1)
         log.append(('R11-param', m.group(2)))
+    # R11s: `mut self` by value -> `self` + a mutable local copy that replaces every use of self in the body
+    m = re.match(r'(pub fn \w+\()mut self([,)])', s)
+    if m:
+        head_end = s.index('{')
+        body = re.sub(r'\bself\b', 's_', s[head_end + 1:])
+        s = s[:head_end].replace('(mut self', '(self', 1) + '{\nlet mut s_ = self;' + body
+        log.append(('R11-self', 1))
     rules = [
         ('R9', r'\b([\w.]+\.0) >= ([\w.]+\.0)\b', r'\1.ge_(&\2)'),
         ('R9', r'\b([\w.]+\.0) < ([\w.]+\.0)\b', r'\1.lt_(&\2)'),
